@@ -484,6 +484,8 @@ func init() {
 					Options: O(func(o *cfgOpts) { o.Groups = []string{"admins"}; o.ProviderSlug = "okta" })}}}},
 				{Name: "third", Clusters: []string{"default"}, Blocks: []cfgBlock{{Route: cfgRoute{From: "third.x.io", To: "third.internal"}, Extras: []cfgRoute{{From: "fourth.x.io", To: "fourth.internal"}}}}}},
 				Cluster: "prod", DefDoms: []string{"x.io"}},
+			// patterns with inline flags next to others: each keeps its own meaning
+			{Services: []cfgService{{Name: "app", Clusters: []string{"default"}, Blocks: []cfgBlock{{Route: cfgRoute{From: "app.x.io", To: "app.internal", Options: O(func(o *cfgOpts) { o.SkipAuthRegex = []string{"(?i)^/healthz$", "^/public/.*$", "(?s)^/x"} })}}}}}, Cluster: "prod", DefDoms: []string{"x.io"}},
 			// every listed skip-auth pattern compiles or the load fails — wherever in the list the bad one stands
 			{Services: []cfgService{{Name: "app", Clusters: []string{"default"}, Blocks: []cfgBlock{{Route: cfgRoute{From: "app.x.io", To: "app.internal", Options: O(func(o *cfgOpts) { o.SkipAuthRegex = []string{"(", "^/ok$"} })}}}}}, Cluster: "prod", DefDoms: []string{"x.io"}},
 			{Services: []cfgService{{Name: "app", Clusters: []string{"default"}, Blocks: []cfgBlock{{Route: cfgRoute{From: "app.x.io", To: "app.internal", Options: O(func(o *cfgOpts) { o.SkipAuthRegex = []string{"^/a", "^/hook/(?!admin).*$", "^/b"} })}}}}}, Cluster: "prod", DefDoms: []string{"x.io"}},
